@@ -3,6 +3,7 @@ package larking
 import (
 	"context"
 	"errors"
+	"fmt"
 	"io"
 	"net"
 
@@ -23,6 +24,7 @@ type streamWS struct {
 	header     metadata.MD
 	trailer    metadata.MD
 	params     params
+	maxRecv    int // maximum size of a received message, 0 = unlimited
 	recvN      int
 	sendN      int
 	sentHeader bool
@@ -99,6 +101,10 @@ func (s *streamWS) RecvMsg(m interface{}) error {
 				}
 			}
 			return err
+		}
+
+		if s.maxRecv > 0 && len(b) > s.maxRecv {
+			return fmt.Errorf("websocket: received message larger than max (%d vs. %d)", len(b), s.maxRecv)
 		}
 
 		// TODO: contentType check?
